@@ -44,6 +44,17 @@ def run(ctx):
                                       {"how": "table atomicUses regenerated from the whole module (translate skeleton, go/types); theorem "
                                               "atomic_fields_are_only_touched_atomically no longer checks; under load the Go race detector reports the "
                                               "access against the sync/atomic writers (stats.Op.Record)", "call_site": fn, "access": what})
+                i1 = txt0.find("def fieldWrites")
+                singles = ("nfs.Nfs", "fstxn.FsState", "super.FsSuper", "simple.Nfs", "kvs.KVS")
+                for fn, ty, fld, cls in re.findall(r'\("([^"]+)", "([^"]+)", "([^"]+)", "([^"]+)"\)', txt0[i1:] if i1 >= 0 else ""):
+                    if ty in singles and cls != "local" and (fn, ty, fld) != ("main.main", "nfs.Nfs", "Unstable"):
+                        ctx.add_violation("unsynchronised-server-field:" + ty + "." + fld + ":" + fn,
+                                          "function %s writes field %s of %s, which every request reaches without a lock: requests on different files hold no common lock, "
+                                          "so this write and any other access to the field are unordered" % (fn, fld, ty),
+                                          {"how": "table fieldWrites regenerated from the whole module (translate skeleton, go/types); theorem "
+                                                  "server_wide_state_is_written_by_its_constructors_only no longer checks; two requests on different files "
+                                                  "running this function (or this function and a reader of the field) race; the Go race detector reports it under load",
+                                           "call_site": fn, "field": ty + "." + fld})
                 bad = failing_handlers(ctx)
                 for fn in (bad or []):
                     if fn.startswith("mu_"):
